@@ -1,13 +1,8 @@
 SPECIFICATION GenSpec
 CONSTANTS
   NoRefresh = "norefresh"
-  AsIsNoContain = FALSE
+  AsIsNoContain = TRUE
   MaxN = 0
   MaxDepth = 2
 CONSTRAINT Depth
-PROPERTY P_Frame
-PROPERTY P_Taken
 PROPERTY P_Robust
-PROPERTY P_Reply
-PROPERTY P_Write
-PROPERTY P_Rule
